@@ -49,9 +49,13 @@ Definition obs_arith (args : list str) : str :=
                         up (no more), then one PRIVMSG long enough to be split by Send:
                         pattern of the five / whether the split Send took the sum of its
                         pieces' costs (every piece is rated and held on its own)
-     "P i j"            keep-alives during the preceding S scenario (PONG answered while
-                        event i is held, Cmd.Ping while event j is held): number of delays
-                        the limiter returned for them / number of keep-alive lines written *)
+     "P l1 l2"          keep-alives while a Send of l1 (l2) bytes is being held (the server's
+                        PING answered, the client's own Cmd.Ping): number of delays the
+                        limiter returned for them / number of keep-alive lines written
+     "H gf af name .."  every exported sender with the allowance used, GlobalFormat gf,
+                        AllowFlood af: per name 'H' (rated and held), 'U' (not rated),
+                        '?' (not an entry point of the model)
+   rate.entry  args: name of an exported sender -> "send" / "write" / "absent" (the model's table) *)
 Fixpoint split_sp (s : str) (cur : str) : list str :=
   match s with
   | [] => [rev cur]
@@ -126,6 +130,36 @@ Definition obs_split (args : list Z) : str :=
   | _ => bs "X=?"
   end.
 
+Definition base_name (n : str) : str :=       (* "Reply/private" -> "Reply" *)
+  match index_byte 47 n with Some k => firstn k n | None => n end.
+
+Definition obs_helpers (words : list str) : str :=
+  match words with
+  | gf :: af :: names =>
+      let allow := streqb af (bs "1") in
+      let g := streqb gf (bs "1") in
+      bs "H=" ++ map (fun n =>
+        match entry_route (base_name n) with
+        | None => 63%N
+        | Some r =>
+            (* from an exhausted allowance: is there a rate call, and is the event held? *)
+            let e := mkE 0 0 30 in
+            let '(_, ds) := exec (sys0 (mkR (30 * second) 0 0)) (entry_actions g allow r 0 e) in
+            match ds with
+            | [] => 85%N
+            | d :: _ => if d =? cost 30 then 72%N else 114%N
+            end
+        end) names
+  | _ => bs "H=?"
+  end.
+
+Definition obs_entry (args : list str) : str :=
+  match entry_route (nth 0 args []) with
+  | Some ViaSend => bs "send"
+  | Some ViaWrite => bs "write"
+  | None => bs "absent"
+  end.
+
 Definition obs_scenario (s : str) : str :=
   match s with
   | 83%N :: 32%N :: r => obs_sync (nums r)
@@ -133,6 +167,7 @@ Definition obs_scenario (s : str) : str :=
   | 70%N :: 32%N :: r => obs_flood (nums r)
   | 80%N :: 32%N :: r => obs_keepalive
   | 88%N :: 32%N :: r => obs_split (nums r)
+  | 72%N :: 32%N :: r => obs_helpers (split_sp r [])
   | _ => bs "?scenario"
   end.
 
@@ -142,6 +177,7 @@ Definition checksum (args : list str) : N := fold_left (fun a s => fold_left N.a
 
 Definition run_C16 (suite : str) (args : list str) : option str :=
   if streqb suite (bs "rate.arith") then Some (obs_arith args)
+  else if streqb suite (bs "rate.entry") then Some (obs_entry args)
   else if streqb suite (bs "rate.wire") then
     Some (match rev args with
           | ck :: rest =>
